@@ -209,7 +209,9 @@ class Run:
 
     def _validate_one(self, module, cfg, trace, label, timeout, back, orig=None):
         ntr, nev = trace_counts(trace)
-        rc, out, dt = self.tlc(module, cfg, env={"TRACE": trace}, workers=1, timeout=timeout, label=label)
+        # a validation run is single-threaded by nature: keep its JVM from taking the machine (several run side by side)
+        rc, out, dt = self.tlc(module, cfg, env={"TRACE": trace, "JAVA_TOOL_OPTIONS": "-XX:ParallelGCThreads=2 -Xmx8g"},
+                               workers=1, timeout=timeout, label=label)
         m = re.search(r'"CONSUMED",\s*(\d+),\s*"OF",\s*(\d+),\s*"REJECTED",\s*\{([^}]*)\}', out)
         if not m:
             raise Broken("trace validation of %s did not complete (rc=%d):\n%s" % (trace, rc, tail(out, 40)))
